@@ -445,8 +445,105 @@ def handler(p):
             res['cases'].append(call(s, c['recs'], probe=c.get('probe')))
         for a in p.get('init', []):
             res['init'].append(run_init(a))
+        res['files'] = [run_file_case(n, c, loader, bp, by_name) for n, c in enumerate(p.get('files', []))]
         return res
     raise ValueError(op)
+
+
+FHDR = '@NS500414:628:H7YVNBGXC:1:11101:%d:1046 %d:N:0:GTGAAA'
+
+
+def parse_fastq_out(path):
+    """records of a written fastq(.gz): [{'idx': CX, 'seq', 'qual', 'tags'}]; malformed files -> error string"""
+    import gzip
+    if not os.path.exists(path):
+        return None
+    with gzip.open(path, 'rt') as h:
+        lines = h.read().split('\n')
+    if lines and lines[-1] == '':
+        lines.pop()
+    if len(lines) % 4:
+        return 'output %s has %d lines' % (os.path.basename(path), len(lines))
+    out = []
+    for k in range(0, len(lines), 4):
+        hd, sq, plus, ql = lines[k:k + 4]
+        if not hd.startswith('@'):
+            return 'output record %d of %s does not start with @' % (k // 4, os.path.basename(path))
+        tags = {}
+        for kv in hd[1:].split(';'):
+            a, _, b = kv.partition(':')
+            tags[a] = b
+        idx = tags.get('CX')
+        out.append({'idx': int(idx) if idx and idx.isdigit() else None, 'seq': sq, 'qual': ql, 'plus': plus,
+                    'tags': {a: b for a, b in tags.items() if a not in HEADER_KEYS}})
+    return out
+
+
+def run_file_case(n, c, loader, bp, by_name):
+    """pairs -> fastq files (plain / gz, LF / CRLF, with / without trailing newline) -> the file level entry points
+    (DemultiplexingStrategyLoader.demultiplex + FastqHandle, or the demux.py command line) -> what was written"""
+    import gzip, runpy
+    from singlecellmultiomics.fastqProcessing.fastqHandle import FastqHandle
+    d = os.path.join(os.environ['SCMO_SCRATCH'], 'f%d' % n)
+    indir, outdir = os.path.join(d, 'in'), os.path.join(d, 'out')
+    os.makedirs(indir)
+    os.makedirs(outdir)
+    nm = c['mates']
+    lanes, off, paths_by_lane = c.get('lanes') or [len(c['pairs'])], 0, []
+    for li, size in enumerate(lanes):
+        paths = []
+        for k in range(nm):
+            lines = []
+            for j in range(off, off + size):
+                sq, ql = c['pairs'][j][k]
+                lines += [FHDR % (j, k + 1), sq, '+', ql]
+            txt = c['eol'].join(lines) + (c['eol'] if c['trailing'] and lines else '')
+            pth = os.path.join(indir, 'LIBA_S1_L%03d_R%d_001.fastq%s' % (li + 1, k + 1, '.gz' if c['gz'] else ''))
+            with (gzip.open(pth, 'wb') if c['gz'] else open(pth, 'wb')) as h:
+                h.write(txt.encode('utf-8'))
+            paths.append(pth)
+        paths_by_lane.append(paths)
+        off += size
+    res = {'crash': None}
+    old, oldargv, oldcwd = sys.stdout, sys.argv, os.getcwd()
+    sys.stdout = io.StringIO()
+    os.chdir(d)
+    try:
+        if c['mode'] == 'loader':
+            libdir = os.path.join(outdir, 'LIBA')
+            os.makedirs(libdir)
+            handle = FastqHandle(os.path.join(libdir, 'demultiplexed'), nm == 2)
+            try:
+                for paths in paths_by_lane:
+                    loader.demultiplex(paths, strategies=[by_name[c['s']]], targetFile=handle, rejectHandle=None, library='LIBA')
+            finally:
+                handle.close()
+        else:
+            flat = [p_ for paths in paths_by_lane for p_ in paths]
+            order = c.get('order') or list(range(len(flat)))
+            args = [flat[i] for i in order]
+            sys.argv = ['demux.py'] + args + ['-use', c['s'], '--y', '-o', outdir, '-hd', '1', '--norejects'] + (['--se'] if nm == 1 else [])
+            res['argv_order'] = [os.path.basename(a) for a in args]
+            script = os.path.join(os.environ['SCMO_REPO'], 'singlecellmultiomics', 'modularDemultiplexer', 'demux.py')
+            try:
+                runpy.run_path(script, run_name='__main__')
+            except SystemExit as e:
+                if e.code not in (None, 0):
+                    res['crash'] = 'SystemExit'
+    except BaseException as e:
+        res['crash'] = '%s: %s' % (type(e).__name__, str(e)[:200])
+    finally:
+        sys.stdout, sys.argv = old, oldargv
+        os.chdir(oldcwd)
+    libs = [x for x in sorted(os.listdir(outdir)) if os.path.isdir(os.path.join(outdir, x))]
+    res['libs'] = libs
+    res['out'] = []
+    for lib in libs:
+        for k in range(nm):
+            res['out'].append(parse_fastq_out(os.path.join(outdir, lib, 'demultiplexedR%d.fastq.gz' % (k + 1))))
+    import shutil
+    shutil.rmtree(d, ignore_errors=True)
+    return res
 
 
 def run_init(a):
